@@ -22,7 +22,8 @@ func c02(c *eng.Ctx, r *eng.Report) {
 		"R2.3 hasher.hash reuses a cached hash only when not storing, when unloading, or when the node is clean; " +
 		"R2.4 the embed threshold in hasher.store is `len < 32` with 32 = len(common.Hash{}), `force` is true only for the root, and the decoder accepts embedded nodes up to the same bound; " +
 		"R2.5 delete builds a short node around a child only on the not-a-short-node edge of a type test of that child (minimal form); " +
-		"R2.6 only the 16 child slots of a branch are hashed, the value slot (index 16) is carried over verbatim. " +
+		"R2.6 only the 16 child slots of a branch are hashed, the value slot (index 16) is carried over verbatim; " +
+		"R2.7 a cached hash is attached only to the node it belongs to — node constructors that take a hash (decodeNode, decodeShort, decodeFull, expandNode) are given nil whenever the node goes into a child slot of another node. " +
 		"Not decided: equality of the root with the Yellow-Paper value for a given content, hex-prefix encoding, iterator order, resolution after cache eviction."
 	r.Assume = []string{"nodes are only reachable through the trie package (unexported types)"}
 	c02CopyOnWrite(c, r)
@@ -31,6 +32,7 @@ func c02(c *eng.Ctx, r *eng.Report) {
 	c02Threshold(c, r)
 	c02Minimal(c, r)
 	c02ValueSlot(c, r)
+	c02HashOwner(c, r)
 }
 
 func isNodePtr(t types.Type) (string, bool) {
@@ -437,6 +439,76 @@ func guardedByNotShort(b *ssa.BasicBlock, v ssa.Value) (bool, string) {
 		return true, last
 	}
 	return check(b, 0)
+}
+
+// c02HashOwner: a cached hash is attached only to the node it is the hash of.
+// The constructors that take a hash (decodeNode, mustDecodeNode, decodeShort,
+// decodeFull, expandNode) are given nil whenever the node they build is a
+// child embedded in its parent: an embedded node has no hash of its own, and
+// the parent's hash on it would be emitted in its place once the parent is
+// restructured.
+func c02HashOwner(c *eng.Ctx, r *eng.Report) {
+	const rule = "R2.7"
+	r.Min(rule, 3)
+	ctors := map[string]bool{"decodeNode": true, "mustDecodeNode": true, "decodeShort": true, "decodeFull": true, "expandNode": true}
+	for _, fn := range c.PkgFuncs("storage/trie") {
+		if c.IsTestFunc(fn) {
+			continue
+		}
+		idx := 0
+		for _, s := range eng.Sites(fn) {
+			st := s.Static()
+			if st == nil || !ctors[st.Name()] || eng.FuncPkgPath(st) != eng.FuncPkgPath(fn) {
+				continue
+			}
+			v, _ := s.Instr.(*ssa.Call)
+			if v == nil {
+				continue
+			}
+			child := fn.Name() == "decodeRef"
+			// does the constructed node go into a child slot (Val / Children[i]) of another node?
+			var flows func(x ssa.Value, d int) bool
+			flows = func(x ssa.Value, d int) bool {
+				if d > 3 || x.Referrers() == nil {
+					return false
+				}
+				for _, ref := range *x.Referrers() {
+					switch y := ref.(type) {
+					case *ssa.Extract:
+						if y.Index == 0 && flows(y, d+1) {
+							return true
+						}
+					case *ssa.Store:
+						if y.Val != x {
+							continue
+						}
+						switch a := y.Addr.(type) {
+						case *ssa.FieldAddr:
+							if _, f := eng.FieldOf(a); f == "Val" {
+								return true
+							}
+						case *ssa.IndexAddr:
+							if _, f := eng.FieldOf(a.X); f == "Children" {
+								return true
+							}
+						}
+					case *ssa.ChangeInterface, *ssa.MakeInterface:
+						if flows(y.(ssa.Value), d+1) {
+							return true
+						}
+					}
+				}
+				return false
+			}
+			if !child && !flows(v, 0) {
+				continue
+			}
+			h := s.Common().Args[0]
+			key := fmt.Sprintf("child-ctor:%s→%s#%d", eng.FuncName(fn), st.Name(), idx)
+			idx++
+			r.Check(eng.IsNilConst(h), rule, key, c.Pos(s.Pos()), "a child node embedded in its parent is built with a nil cached hash", eng.FuncName(fn)+" builds a child node with cached hash "+eng.Desc(h)+" instead of nil: the child would carry another node's hash; once the parent is split or merged the hasher emits that stale hash in place of the child's own encoding and the root is not the root of the content")
+		}
+	}
 }
 
 func c02ValueSlot(c *eng.Ctx, r *eng.Report) {
